@@ -31,4 +31,34 @@ PROPS = {
                   '4': 'purge introduced a checker warning', '5': 'an indicator changed'},
         'assumptions': ['names are not modelled; item contents are compared as JSON values by the harness'],
     },
+    'C08': {
+        'agree': 'agree_C08 (Model/K.v)',
+        'technique': 'Coq proof over Q (sums by induction, Permutation invariance, nra for the mean bounds) + vm_compute correspondence on the implementation\'s reported props',
+        'level_text': 'Theorems C08_* state for every props value (any number of walls, windows, bridges): K times the envelope area equals the sum of A*U over opaque parts and windows of exactly the envelope set in contact with air or ground plus psi*L over bridges of non-negative length; override > computed > 5.7; the five categories and nine bridge kinds add up to the totals; each category mean lies between its min and max; elements outside the set and negative bridges can be dropped; K is invariant under permutation and injective renaming. K_model is tied to KData::from by evaluating both on the same props (reported by the implementation for generated and shipped models) and comparing every KData field inside Coq to 1e-4 relative.',
+        'level_note': 'Trusted: Coq kernel + vm_compute; harness generator/printer. The props fields K reads are tied to the Model by C06, C07 and C11. Comparisons exactly at the 0.001 / 0.01 m2 guards are skipped.',
+        'n': {'quick': 400, 'thorough': 12000},
+        'codes': {'1': 'K', '2': 'summary a/au', '3': 'opaques a/au', '4': 'windows a/au', '5': 'bridges l/psil totals',
+                  '6': 'per-category opaque breakdown (a, au, u_min, u_max, u_mean)', '7': 'windows breakdown', '8': 'bridge kinds', '9': 'non-finite number in K data'},
+        'assumptions': ['f32 summation noise is absorbed by a 1e-4 relative + 1e-4 absolute tolerance'],
+    },
+    'C09': {
+        'agree': 'agree_C09 (Model/N50.v)',
+        'technique': 'Coq proof over Q (field for the blower-door consistency, sums by induction) + vm_compute correspondence on the implementation\'s reported props',
+        'level_text': 'Theorems C09_* state for every props value: n50_ref = 0.629 (Co Ao + sum Ch Ah) / V over envelope elements in contact with outside air, 0 when V is 0 (<= 0.001); Co is what props report (16 new / 29 existing, tied by C11); Ch defaults to 100; with a blower-door value n50 is that value and the reported wall permeability satisfies the same equation; without it n50 = n50_ref and the wall permeability is Co; ground/adiabatic/interior elements can be dropped; invariant under permutation. N50_model is tied to N50Data::from by evaluating both on the same reported props and comparing all 11 fields inside Coq.',
+        'level_note': 'Trusted: Coq kernel + vm_compute; harness generator/printer. Cases with V, Ao or Ah within 1e-5 of the 0.001 guards are skipped.',
+        'n': {'quick': 400, 'thorough': 12000},
+        'codes': {'1': 'n50_ref', '2': 'n50', '3': 'walls_a / windows_a', '4': 'windows_c_a / windows_c', '5': 'walls_c_ref / walls_c_a_ref',
+                  '6': 'walls_c / walls_c_a', '7': 'vol', '9': 'non-finite number'},
+        'assumptions': ['f32 noise absorbed by 1e-4 relative tolerance; back-calculated wall permeability compared with a tolerance scaled by the cancelling terms'],
+    },
+    'C10': {
+        'agree': 'agree_C10 (Model/QSolJul.v)',
+        'technique': 'Coq proof over Q (weighted means, partition by orientation, finiteness) + regenerated climate tables (vm_compute obligations) + vm_compute correspondence',
+        'level_text': 'Theorems C10_* state for every props value and zone: Q_sol;jul is the sum over windows of envelope elements in contact with air or ground of Fsh,obst g_gl;sh;wi (1-Ff) A H_sol;jul with override > computed > 1, defaults 0.77/0.20 without construction, H from the regenerated embedded tables for the window\'s orientation class and the zone (C10_table_total: every zone x orientation has a non-negative entry); q = Q / A_ref; the per-orientation detail adds up to the totals; every mean times its area is the weighted sum and lies between min and max; with no such window (or A_ref = 0) every figure is a defined finite number. QSol_model is tied to QSolJulData::from by evaluating both on reported props for models cycling over all 32 zones.',
+        'level_note': 'Trusted: Coq kernel + vm_compute; harness generator/printer; tables dumped through the compiled public statics into coq/gen/Tables.v on every run.',
+        'n': {'quick': 384, 'thorough': 12000},
+        'codes': {'1': 'Q_soljul', '2': 'q_soljul', '3': 'a_wp', '4': 'global means', '5': 'per-orientation detail', '9': 'non-finite number reported',
+                  '10': 'q_sol;jul data does not load back from its JSON', '20': 'model predicts a crash (missing table entry), implementation returned', '21': 'implementation crashed'},
+        'assumptions': ['f32 noise absorbed by 1e-4 relative tolerance'],
+    },
 }
